@@ -171,6 +171,30 @@ def gen_history(rng, n, no_open, modes=None):
         H.append(r)
     return H
 
+def boundary_history(f, size, no_open):
+    """ranges that end at EOF-1, EOF and EOF+1 (and start at EOF-1, EOF, EOF+1) for file f of the given size: writes with
+    plain and appending flag words, every size-relevant fallocate mode, setattr to size-1/size/size+1"""
+    H = [{'op': 'open', 'slot': 0, 'file': f, 'flags': 2}]
+    ranges = []
+    for ln in (1, 2, 4096):
+        for end in (size - 1, size, size + 1):
+            if end - ln >= 0: ranges.append((end - ln, ln))
+    for off in (max(0, size - 1), size, size + 1):
+        ranges.append((off, 1)); ranges.append((off, 0))
+    seen = set()
+    for off, ln in ranges:
+        if (off, ln) in seen: continue
+        seen.add((off, ln))
+        if ln <= 4096:
+            H.append({'op': 'write', 'slot': 0, 'file': f, 'off': off, 'len': ln, 'wflags': 2})
+            H.append({'op': 'write', 'slot': 0, 'file': f, 'off': off, 'len': ln, 'wflags': 2 | O_APPEND})
+        for mode in (0, 1, 3, 16, 17):
+            H.append({'op': 'fallocate', 'slot': 0, 'file': f, 'mode': mode, 'off': off, 'len': ln})
+    for ns in (max(0, size - 1), size, size + 1):
+        H.append({'op': 'setattr', 'file': f, 'with_size': True, 'size': ns})
+    H.append({'op': 'release', 'slot': 0, 'file': f})
+    return H
+
 def concretize(rng, r, sizes, cap):
     """offsets/sizes are chosen relative to the current size of the file"""
     if r['op'] in ('write', 'fallocate') and r['off'] is None:
@@ -260,10 +284,15 @@ def run_check(tier, seed):
     if not ok:
         broken.append({'kind': 'harness-build', 'log': out[-3000:]})
         return finish(ev, PROP, findings, broken)
-    fx, fxerr = read_fixes(REPO)
-    if fx is None:
-        broken.append({'kind': 'translator', 'item': 'props/c18.py read_fixes', 'error': fxerr}); fx = {'fx_open': False, 'fx_create': False, 'fx_append': False}
-    ev.cov['code_variant'] = dict(fx, decided_by=('C18_full_when_fixed' if all(fx.values()) else 'C18_refuted + C18_partial'))
+    # the theorems (C18_full) are about the model with the three refusals of commit 4429c29; the source must have them
+    fx_src, fxerr = read_fixes(REPO)
+    if fx_src is None:
+        broken.append({'kind': 'translator', 'item': 'props/c18.py read_fixes', 'error': fxerr})
+    elif not all(fx_src.values()):
+        broken.append({'kind': 'translator', 'item': 'src/passthrough/sync_io.rs no longer contains a seal_size refusal the model has',
+                       'missing': [k for k, v in fx_src.items() if not v]})
+    fx = {'fx_open': True, 'fx_create': True, 'fx_append': True}
+    ev.cov['code_variant'] = {'model': 'all_fixes', 'source_reading': fx_src, 'decided_by': 'C18_full'}
     nh = 30 if quick else 400
     evals = 0; nontriv = set(); samples = []; exprs = []; meta = []
     base = os.path.join(SCRATCH, 'c18-tree')
@@ -275,18 +304,14 @@ def run_check(tier, seed):
                 kind = 'passthrough' if hi < nh else 'vfs'          # the last histories go through a Vfs with the export mounted at /
                 S = Inst(bindir, base + '-s', 1, no_open, kind); U = Inst(bindir, base + '-u', 0, no_open, kind)
                 try:
-                    H = gen_history(rng, 45, no_open)
+                    # the first histories are the deterministic boundary histories, one per pre-existing file
+                    H = boundary_history(hi, SIZES0[hi], no_open) if hi < len(SIZES0) else gen_history(rng, 45, no_open)
                     cases = []
                     dead = set()
                     for r in H:
                         before = S.sizes()
                         concretize(rng, r, before, None)
                         cls = classify(r, before)
-                        # known defect (refusal-closes-fd, probed separately): a WRITE refused by the seal closes the
-                        # handle's descriptor; the handle must not be touched again (debug builds abort on the double
-                        # close), and under no_open the refusal itself aborts - such writes are only sent by the probe
-                        if r.get('slot') in dead and r['op'] in ('write', 'fallocate', 'release'): continue
-                        if no_open and r['op'] == 'write' and will_refuse_write(r, before): continue
                         try:
                             e = S.send(r)
                         except FuseError as ex:
@@ -296,8 +321,6 @@ def run_check(tier, seed):
                                              'sig': dict(sig_of(r), kind='server-abort')})
                             break
                         after = S.sizes(); evals += 1
-                        if r['op'] == 'write' and e in (EPERM, EINVAL): dead.add(r['slot'])
-                        if r['op'] in ('open', 'create') and e == 0 and not (r['op'] == 'create' and no_open): dead.discard(r['slot'])
                         cfgd = {'seal_size': True, 'no_open': bool(no_open), 'kind': kind}
                         inp = {'config': cfgd, 'history_index': hi, 'request': dict(r), 'sizes_before': before, 'sizes_after': after, 'errno': e,
                                'prefix': [coq_req(x) for x, _, _ in cases][-12:]}
